@@ -19,13 +19,13 @@ class Bench:
         self.pool = ThreadPoolExecutor(max_workers=NCPU)
         self.n = 0
 
-    def run_many(self, jobs, env=None, timeout=60, nofile=None):
+    def run_many(self, jobs, env=None, timeout=60, nofile=None, sigint_ignored=False):
         """jobs: list of (scenario_text, reporter). Returns list of Obs (same order)."""
         def one(ij):
             i, (txt, rep) = ij
             wd = os.path.join(self.ctx.work, f"run{i % (NCPU * 2)}-{os.getpid()}-{i}")
             try:
-                return run_impl(self.exe, txt, rep, wd, env=env, timeout=timeout, nofile=nofile)
+                return run_impl(self.exe, txt, rep, wd, env=env, timeout=timeout, nofile=nofile, sigint_ignored=sigint_ignored)
             finally:
                 shutil.rmtree(wd, ignore_errors=True)
         return list(self.pool.map(one, enumerate(jobs)))
